@@ -7,6 +7,7 @@ CONSTANTS
   MaxDocs = 2
   MaxNest = 9
   EmptyColls = FALSE
+  CollsAt = "any"
   Canons = {FALSE}
   Bests = {2}
   Widths = {80}
